@@ -102,6 +102,36 @@ Fixpoint ram_org_ok (high : bool) (ns : list tnode) : bool :=
       end && ram_org_ok high rest
   end.
 
+(** Programs that declare their own bus with [.map]: [ranges] are the declared bank ranges in
+    declaration order (the mirror range of a declaration right after its main range, with the same
+    window and flag); the range in force for a bank is the LAST declared one that holds it.  The
+    offset of a ROM address inside its bank window is the textbook one of Spec/BusLaws
+    ((bank - first bank of the range) x window size + position in the window). *)
+Fixpoint user_range (ranges : list mapping) (bank : Z) (acc : option mapping) : option mapping :=
+  match ranges with
+  | [] => acc
+  | m :: rest => user_range rest bank (if (m_first m <=? bank) && (bank <=? m_last m) then Some m else acc)
+  end.
+Definition user_offset (ranges : list mapping) (a : Z) : option Z :=
+  match user_range ranges (bank_of a) None with
+  | Some m => if m_writable m then None
+              else if mask_ok_b m && in_window_b m a then Some (spec_offset m a) else None
+  | None => None
+  end.
+Fixpoint user_offsets_ok (ranges : list mapping) (ns : list tnode) (relocated : bool) : bool :=
+  match ns with
+  | [] => true
+  | n :: rest =>
+      let here :=
+        match tn_bytes n with
+        | [] => true
+        | _ => relocated ||
+               match user_offset ranges (tn_addr n) with Some p => p =? tn_pc n | None => true end
+        end in
+      here && user_offsets_ok ranges rest
+                (if tn_kind n =? 1 then false else if tn_kind n =? 2 then true else relocated)
+  end.
+
 (** ** What a case asks the oracle to check *)
 Inductive spec :=
 | SNone
@@ -126,6 +156,8 @@ Inductive spec :=
 (* C02: every listed label (name, value) is the address some LabelNode / BinaryNode of that name was given
    in the label pass ([events]: name, address passed to pc_after) *)
 | SLabelValues (events : list (str * Z))
+(* C03/C04 with a user-declared bus: every unrelocated ROM byte sits at the offset the declared ranges give *)
+| SUserOffsets (ranges : list mapping) (ns : list tnode)
 | SAnd (a b : spec).
 
 Definition nth_z {A} (l : list A) (i : nat) : option A := nth_error l i.
@@ -151,6 +183,7 @@ Definition emit_addr (em : list (nat * Z * nat * Z)) (i : nat) : option Z :=
 Fixpoint spec_ok (s : spec) (impl : obs asmobs) : bool :=
   match s with
   | SAnd a b => spec_ok a impl && spec_ok b impl
+  | SUserOffsets ranges ns => match impl with OOk _ => user_offsets_ok ranges ns false | _ => true end
   | SLabelValues events =>
       match impl with
       | OOk (_, labels) => forallb (fun nv => existsb (label_eqb nv) events) labels
